@@ -274,8 +274,9 @@ func hC17Matrix() {
 	var extra []ServiceOption
 	var topts []TranscoderOption
 	services := []*Service{}
+	var lateBare *Service
 	wantErr := true
-	class := verifChoose("class", 16)
+	class := verifChoose("class", 18)
 	switch class {
 	case 0: // valid baseline
 		wantErr = false
@@ -316,6 +317,18 @@ func hC17Matrix() {
 		topts = append(topts, WithRules(
 			&annotations.HttpRule{Selector: "p.S.Get", Pattern: &annotations.HttpRule_Get{Get: "/v1/x"}},
 			&annotations.HttpRule{Selector: "p.S.Get", Pattern: &annotations.HttpRule_Get{Get: "/v1/x"}}))
+	case 16, 17: // two REST-only services, only one of them has a binding (in either order): the bare one is unservable
+		other := newFakeService("p.T")
+		other.addMethod("List", fkUnary, 0, false)
+		protoOpt = WithTargetProtocols(ProtocolREST)
+		topts = append(topts, WithRules(&annotations.HttpRule{Selector: "p.S.Get", Pattern: &annotations.HttpRule_Get{Get: "/v1/{name}"}}))
+		bare := &Service{schema: other, handler: nopHandler(), opts: []ServiceOption{WithTypeResolver(&fakeResolver{}), WithTargetProtocols(ProtocolREST), WithTargetCodecs(CodecProto)}}
+		if class == 16 {
+			services = append(services, bare) // bare service first
+		} else {
+			defer func() {}()
+			lateBare = bare // bare service after the one that has bindings
+		}
 	case 15: // invalid template / blank pattern
 		if verifChoose("blank", 2) == 1 {
 			topts = append(topts, WithRules(&annotations.HttpRule{Selector: "p.S.Get", Pattern: &annotations.HttpRule_Get{Get: ""}}))
@@ -326,6 +339,9 @@ func hC17Matrix() {
 	all := append(append([]ServiceOption{}, opts...), protoOpt, codecOpt, compOpt)
 	all = append(all, extra...)
 	services = append(services, &Service{schema: svc, handler: nopHandler(), opts: all})
+	if lateBare != nil {
+		services = append(services, lateBare)
+	}
 	// a transcoder-wide default that the per-service option must override
 	topts = append(topts, toyCodecOption(CodecProto, false, cfg), toyCodecOption(CodecJSON, true, cfg), toyCompressionOption(cfg),
 		WithDefaultServiceOptions(WithMaxMessageBufferBytes(7), WithTargetCodecs(CodecJSON)))
